@@ -1,13 +1,323 @@
 package main
 
-import "regexp"
+// Regular-expression matching on symbolic subjects.
+//
+// MatchString: a Pike-style simulation of the real compiled program
+// (regexp/syntax.Compile of the handle's own pattern) in which every thread
+// carries a Bool term instead of being simply alive; the result is one Bool
+// term, no forking. The subject's length is concrete; its symbolic bytes must
+// be ASCII (a fork; the non-ASCII side is reported as unsupported).
+//
+// FindAllStringSubmatchIndex (leftmost-first semantics with captures) is
+// modelled by a backtracking matcher that forks on every symbolic rune test.
+
+import (
+	"fmt"
+	"os"
+	"sort"
+	"regexp"
+	"regexp/syntax"
+	"unicode"
+	"unicode/utf8"
+)
+
+type reProg struct {
+	prog *syntax.Prog
+	ncap int
+}
+
+func (in *Interp) compileRe(re *regexp.Regexp) *reProg {
+	if p, ok := in.reProgs[re.String()]; ok {
+		return p
+	}
+	rx, err := syntax.Parse(re.String(), syntax.Perl)
+	if err != nil {
+		in.unsupported("regexp model: cannot parse %q: %v", re.String(), err)
+	}
+	ncap := rx.MaxCap()
+	rx = rx.Simplify()
+	prog, err := syntax.Compile(rx)
+	if err != nil {
+		in.unsupported("regexp model: cannot compile %q: %v", re.String(), err)
+	}
+	p := &reProg{prog: prog, ncap: ncap}
+	in.reProgs[re.String()] = p
+	return p
+}
+
+// subjectRunes splits the subject into runes (32-bit terms) with their byte offsets.
+func (in *Interp) subjectRunes(fr *frame, s Str) ([]*Term, []int) {
+	var rs []*Term
+	var offs []int
+	i := 0
+	n := s.Len()
+	for i < n {
+		r, sz := in.decodeRune(fr, s, i)
+		rs = append(rs, r)
+		offs = append(offs, i)
+		i += sz
+	}
+	offs = append(offs, n)
+	return rs, offs
+}
+
+func (in *Interp) isWordTerm(r *Term) *Term {
+	ts := in.ts
+	k := func(c rune) *Term { return ts.BV(32, uint64(c)) }
+	rng := func(lo, hi rune) *Term { return ts.And(ts.Cmp(OSle, k(lo), r), ts.Cmp(OSle, r, k(hi))) }
+	return ts.OrN(rng('a', 'z'), rng('A', 'Z'), rng('0', '9'), ts.Eq(r, k('_')))
+}
+
+// emptyCond is the condition under which the zero-width assertion holds at rune position pos.
+func (in *Interp) emptyCond(op syntax.EmptyOp, rs []*Term, pos int) *Term {
+	ts := in.ts
+	nl := ts.BV(32, '\n')
+	c := ts.True
+	if op&syntax.EmptyBeginText != 0 && pos != 0 {
+		return ts.False
+	}
+	if op&syntax.EmptyEndText != 0 && pos != len(rs) {
+		return ts.False
+	}
+	if op&syntax.EmptyBeginLine != 0 && pos != 0 {
+		c = ts.And(c, ts.Eq(rs[pos-1], nl))
+	}
+	if op&syntax.EmptyEndLine != 0 && pos != len(rs) {
+		c = ts.And(c, ts.Eq(rs[pos], nl))
+	}
+	if op&(syntax.EmptyWordBoundary|syntax.EmptyNoWordBoundary) != 0 {
+		before, after := ts.False, ts.False
+		if pos > 0 {
+			before = in.isWordTerm(rs[pos-1])
+		}
+		if pos < len(rs) {
+			after = in.isWordTerm(rs[pos])
+		}
+		boundary := ts.Not(ts.Eq(before, after))
+		if op&syntax.EmptyWordBoundary != 0 {
+			c = ts.And(c, boundary)
+		}
+		if op&syntax.EmptyNoWordBoundary != 0 {
+			c = ts.And(c, ts.Not(boundary))
+		}
+	}
+	return c
+}
+
+// runeCond is the condition under which instruction i matches rune r.
+func (in *Interp) runeCond(i *syntax.Inst, r *Term) *Term {
+	ts := in.ts
+	k := func(c rune) *Term { return ts.BV(32, uint64(c)) }
+	switch i.Op {
+	case syntax.InstRuneAny:
+		return ts.True
+	case syntax.InstRuneAnyNotNL:
+		return ts.Not(ts.Eq(r, k('\n')))
+	}
+	if r.IsConst() {
+		return ts.Bool(i.MatchRune(rune(r.Int())))
+	}
+	rs := i.Rune
+	if len(rs) == 1 {
+		// single rune, possibly case-folded
+		c := ts.Eq(r, k(rs[0]))
+		if syntax.Flags(i.Arg)&syntax.FoldCase != 0 {
+			for f := unicode.SimpleFold(rs[0]); f != rs[0]; f = unicode.SimpleFold(f) {
+				c = ts.Or(c, ts.Eq(r, k(f)))
+			}
+		}
+		return c
+	}
+	c := ts.False
+	for j := 0; j+1 < len(rs); j += 2 {
+		lo, hi := rs[j], rs[j+1]
+		if lo == hi {
+			c = ts.Or(c, ts.Eq(r, k(lo)))
+		} else {
+			c = ts.Or(c, ts.And(ts.Cmp(OSle, k(lo), r), ts.Cmp(OSle, r, k(hi))))
+		}
+	}
+	return c
+}
 
 func (in *Interp) reMatchSym(fr *frame, re *regexp.Regexp, s Str) Value {
-	in.unsupported("regexp match on symbolic subject (VM not built yet)")
+	ts := in.ts
+	p := in.compileRe(re)
+	rs, _ := in.subjectRunes(fr, s)
+	prog := p.prog
+	matched := ts.False
+	var add func(set map[uint32]*Term, pc uint32, cond *Term, pos int, stack map[uint32]bool)
+	add = func(set map[uint32]*Term, pc uint32, cond *Term, pos int, stack map[uint32]bool) {
+		if cond == ts.False || stack[pc] {
+			return
+		}
+		inst := &prog.Inst[pc]
+		stack[pc] = true
+		switch inst.Op {
+		case syntax.InstAlt, syntax.InstAltMatch:
+			add(set, inst.Out, cond, pos, stack)
+			add(set, inst.Arg, cond, pos, stack)
+		case syntax.InstCapture, syntax.InstNop:
+			add(set, inst.Out, cond, pos, stack)
+		case syntax.InstEmptyWidth:
+			add(set, inst.Out, ts.And(cond, in.emptyCond(syntax.EmptyOp(inst.Arg), rs, pos)), pos, stack)
+		case syntax.InstFail:
+		case syntax.InstMatch:
+			matched = ts.Or(matched, cond)
+		default:
+			if old, ok := set[pc]; ok {
+				set[pc] = ts.Or(old, cond)
+			} else {
+				set[pc] = cond
+			}
+		}
+		delete(stack, pc)
+	}
+	cur := map[uint32]*Term{}
+	for pos := 0; pos <= len(rs); pos++ {
+		// unanchored search: a match may start at every position
+		add(cur, uint32(prog.Start), ts.True, pos, map[uint32]bool{})
+		if pos == len(rs) {
+			break
+		}
+		next := map[uint32]*Term{}
+		pcs := make([]int, 0, len(cur))
+		for pc := range cur {
+			pcs = append(pcs, int(pc))
+		}
+		sort.Ints(pcs)
+		for _, pci := range pcs {
+			pc := uint32(pci)
+			inst := &prog.Inst[pc]
+			m := in.runeCond(inst, rs[pos])
+			add(next, inst.Out, ts.And(cur[pc], m), pos+1, map[uint32]bool{})
+		}
+		cur = next
+	}
+	return matched
+}
+
+// ---- leftmost-first backtracking with captures (forks on symbolic rune tests)
+
+func (in *Interp) reFindAllSym(fr *frame, re *regexp.Regexp, s Str, n int) Value {
+	p := in.compileRe(re)
+	rs, offs := in.subjectRunes(fr, s)
+	var out []Value
+	pos := 0
+	prevEnd := -1
+	for pos <= len(rs) && (n < 0 || len(out) < n) {
+		caps := in.reFirstMatch(p, rs, pos)
+		if caps == nil {
+			break
+		}
+		start, end := caps[0], caps[1]
+		accept := true
+		if end == start && start == prevEnd {
+			accept = false // empty match adjacent to the previous match is ignored (as the library does)
+		}
+		if accept {
+			row := make([]Value, len(caps))
+			for i, c := range caps {
+				if c < 0 {
+					row[i] = in.mkInt(-1)
+				} else {
+					row[i] = in.mkInt(int64(offs[c]))
+				}
+			}
+			out = append(out, row)
+		}
+		prevEnd = end
+		if end > start {
+			pos = end
+		} else {
+			pos = end + 1
+		}
+	}
+	if out == nil {
+		return []Value(nil)
+	}
+	return out
+}
+
+// reFirstMatch finds the leftmost match starting the search at rune position from;
+// returns capture positions in rune indices (nil if there is no match).
+func (in *Interp) reFirstMatch(p *reProg, rs []*Term, from int) []int {
+	for start := from; start <= len(rs); start++ {
+		caps := make([]int, 2*(p.ncap+1))
+		for i := range caps {
+			caps[i] = -1
+		}
+		visited := map[[2]int]bool{}
+		caps[0] = start // the whole match is not wrapped in a capture instruction
+		if in.reBacktrack(p, rs, uint32(p.prog.Start), start, caps, visited) {
+			return caps
+		}
+	}
 	return nil
 }
 
-func (in *Interp) reFindAllSym(fr *frame, re *regexp.Regexp, s Str, n int) Value {
-	in.unsupported("regexp FindAll on symbolic subject (VM not built yet)")
-	return nil
+// reBacktrack explores threads in priority order; on concrete input this is
+// RE2's leftmost-first semantics. Every test of a symbolic rune is a branch.
+func (in *Interp) reBacktrack(p *reProg, rs []*Term, pc uint32, pos int, caps []int, visited map[[2]int]bool) bool {
+	for {
+		in.reSteps++
+		if os.Getenv("SYMGO_RETRACE") != "" && in.reSteps < 300 {
+			fmt.Fprintf(os.Stderr, "re: pc=%d pos=%d op=%v\n", pc, pos, p.prog.Inst[pc].Op)
+		}
+		if in.reSteps > 5_000_000 {
+			in.unsupported("regexp backtracking model exceeded 5M steps (pc=%d pos=%d len=%d)", pc, pos, len(rs))
+		}
+		inst := &p.prog.Inst[pc]
+		switch inst.Op {
+		case syntax.InstFail:
+			return false
+		case syntax.InstMatch:
+			caps[1] = pos
+			return true
+		case syntax.InstNop:
+			pc = inst.Out
+		case syntax.InstCapture:
+			if int(inst.Arg) < len(caps) {
+				old := caps[inst.Arg]
+				caps[inst.Arg] = pos
+				if in.reBacktrack(p, rs, inst.Out, pos, caps, visited) {
+					return true
+				}
+				caps[inst.Arg] = old
+				return false
+			}
+			pc = inst.Out
+		case syntax.InstEmptyWidth:
+			if !in.branch(in.emptyCond(syntax.EmptyOp(inst.Arg), rs, pos), nil) {
+				return false
+			}
+			pc = inst.Out
+		case syntax.InstAlt, syntax.InstAltMatch:
+			// the visited set cuts empty loops; it is keyed by (pc,pos) which is
+			// sound here because captures are restored on failure and a failed
+			// (pc,pos) fails again under the same path condition
+			key := [2]int{int(pc), pos}
+			if visited[key] {
+				return false
+			}
+			visited[key] = true
+			saved := append([]int(nil), caps...)
+			if in.reBacktrack(p, rs, inst.Out, pos, caps, visited) {
+				return true
+			}
+			copy(caps, saved)
+			pc = inst.Arg
+		default: // rune instructions
+			if pos >= len(rs) {
+				return false
+			}
+			if !in.branch(in.runeCond(inst, rs[pos]), nil) {
+				return false
+			}
+			pos++
+			pc = inst.Out
+		}
+	}
 }
+
+var _ = utf8.RuneError
